@@ -296,8 +296,9 @@ def s6(ctx, rep):
     cfg = cfg_of(f)
 
     def push_of(evname):
+        from ..engine import deref
         return ctx.sel_pred(lambda x: isinstance(x, ast.Call) and fn_name(x) == "push" and x.args and
-                            isinstance(x.args[0], ast.Call) and fn_name(x.args[0]) == evname, f"push({evname})")
+                            isinstance(deref(f, x.args[0]), ast.Call) and fn_name(deref(f, x.args[0])) == evname, f"push({evname})")
     proc = ctx.sel_call(selfcall="_process_events_until_now")
     a = ctx.nodes(f, push_of("StopEvent"), "must", 0)
     c = ctx.nodes(f, push_of("CompleteEvent"), "may", 0)
